@@ -102,6 +102,7 @@ class PathState:
         self.start_mem = {}
         self.start_lfmem = {}
         self.objgen = {}     # obj -> generation (bumped when a loop head havocs the whole object)
+        self.resume = None   # (block, instruction position) when a path was forked in the middle of a block
 
     def clone(self):
         p = PathState()
@@ -339,7 +340,10 @@ class Exec:
                 if len(p.blocks) > 4000:
                     raise Broken("irx(unroll): path too long in %s (loop bound not constant?)" % f.name)
             follow = False
-            if self.auto and b in self.heads and pred != "fresh" and b != origin:
+            resuming = getattr(p, "resume", None) is not None and p.resume[0] == b
+            if resuming:
+                follow = True       # continuing in the middle of this block: no loop-head bookkeeping
+            elif self.auto and b in self.heads and pred != "fresh" and b != origin:
                 # (a generic iteration that started at this head ends when it comes back to it, decided or not)
                 follow = self._header_decided(p, b, pred)
                 if len(p.blocks) > 6000:
@@ -405,10 +409,31 @@ class Exec:
                         n.start_lfmem = dict(n.lfmem)
                         work.append((b, "fresh", n, "iter"))
                     return
-            p.blocks.append(b)
+            resume_at = None
+            if getattr(p, "resume", None) is not None and p.resume[0] == b:
+                resume_at = p.resume[1]
+                p.resume = None
+            else:
+                p.blocks.append(b)
             blk = f.blocks[b]
-            for iid in blk.insts:
+            forked = False
+            for pos_, iid in enumerate(blk.insts):
+                if resume_at is not None and pos_ < resume_at:
+                    continue
                 I = f.insts[iid]
+                if I.op == "select" and self.auto:
+                    # a select on an undecided comparison of lengths behaves like a branch: one path per outcome
+                    c_ = p.env.get(I.ops[0]) if I.ops[0][0] == "i" else None
+                    if isinstance(c_, tuple) and c_ and c_[0] == "icmp" and isinstance(c_[2], Lf) and isinstance(c_[3], Lf) and self._decide(p, c_) is None:
+                        for truth in (True, False):
+                            q = p.clone()
+                            sp = self._assume(q, c_, truth)
+                            for q2 in self._split(q, sp):
+                                q2.env[("i", I.id)] = self.val(q2, I.ops[1] if truth else I.ops[2])
+                                q2.resume = (b, pos_ + 1)
+                                work.append((b, pred, q2, "fork"))
+                        forked = True
+                        break
                 if I.op == "phi":
                     if pred == "fresh":
                         continue
@@ -419,6 +444,8 @@ class Exec:
                 if I.is_dbg() or I.is_lifetime() or I.op in ("br", "ret", "switch", "unreachable"):
                     continue
                 self._step(p, I)
+            if forked:
+                return
             t = f.term(b)
             if t.op == "ret":
                 rv = self.val(p, t.ops[0]) if t.ops else None
